@@ -3,6 +3,7 @@
 package engarith
 
 import (
+	"bytes"
 	"encoding/json"
 	"fmt"
 	"math/big"
@@ -174,6 +175,9 @@ func genArith(rng *rand.Rand) *arithEval {
 // slices: results must depend on the values, not on which slice carried them or what it held before.
 var scratchBase, scratchX = make(net.IP, 16), make(net.IP, 16)
 
+// prevSum is the previous non-trivial AddPrefixes result (kept by the "caller", as an allocator would)
+var prevSum net.IP
+
 func ipIn(buf net.IP, v *big.Int) net.IP {
 	copy(buf, IPOf(v))
 	return buf
@@ -244,6 +248,20 @@ func arithOne(ctx *fw.Ctx, ev *arithEval) {
 	case !sumOvf && err != nil:
 		report("addprefixes-spurious-error", "AddPrefixes returned error %v, want %s", err, IPOf(wantSum))
 	case !sumOvf:
+		if len(got) == 16 && len(prevSum) == 16 && ev.N != 0 {
+			// results are values of their own: a caller that appends to an earlier result (say, a length byte to
+			// build a key) must not thereby change a later one
+			snap := append(net.IP(nil), got...)
+			_ = append(prevSum, 0x40)
+			if !bytes.Equal(snap, got) {
+				report("result-shares-memory", "AddPrefixes returned %s; after one byte was appended to the previous result it reads %s: results share a backing array", snap, got)
+				copy(got, snap)
+			}
+			ctx.Count("arith.append_to_earlier_result", 1)
+		}
+		if ev.N != 0 {
+			prevSum = got
+		}
 		if len(got) != 16 || new(big.Int).SetBytes(got).Cmp(wantSum) != 0 {
 			report("addprefixes-value", "AddPrefixes = %s, want %s", got, IPOf(wantSum))
 		} else {
